@@ -175,7 +175,10 @@ impl<'a> Lexer<'a> {
     }
 
     fn peek_next(&self) -> Option<char> {
-        let mut iter = self.source[self.position..].chars();
+        // `position` counts characters, not bytes: look ahead on a copy of the character
+        // iterator instead of slicing the source (which panics or looks at the wrong place
+        // after any non-ASCII character).
+        let mut iter = self.chars.clone();
         iter.next();
         iter.next()
     }
@@ -253,7 +256,7 @@ impl<'a> Lexer<'a> {
                 Some('"') => {
                     if self.peek_next() == Some('"') {
                         // Check for closing """
-                        let mut chars_copy = self.source[self.position..].chars();
+                        let mut chars_copy = self.chars.clone();
                         if chars_copy.next() == Some('"')
                             && chars_copy.next() == Some('"')
                             && chars_copy.next() == Some('"')
@@ -400,7 +403,12 @@ fn dedent_block_string(value: &str) -> String {
             result.push_str(line);
         } else if let Some(indent) = common_indent {
             if line.len() > indent {
-                result.push_str(&line[indent..]);
+                // `indent` is a byte count of leading white space; a line indented with wider
+                // white-space characters need not have a character boundary there.
+                match line.get(indent..) {
+                    Some(rest) => result.push_str(rest),
+                    None => result.push_str(line.trim_start()),
+                }
             }
         } else {
             result.push_str(line);
